@@ -87,7 +87,7 @@ QUICK = [
     cfg(1, 2, True, False, 40, 4),
     cfg(0, 3, True, False, 8),
     cfg(1, 1, True, True, 4),      # 21
-    cfg(0, 2, True, True, 3),      # 18
+    cfg(0, 2, True, True, 4),      # 40
     cfg(4, 0, False, True, 0),     # 8
     cfg(2, 1, False, False, 40),   # 13
     cfg(1, 1, False, False, 40),   # 15
@@ -102,7 +102,42 @@ QUICK = [
     cfg(3, 0, True, False, 0),
     cfg(4, 0, True, False, 0),
 ]
-THOROUGH = list(QUICK)
+
+
+def _thorough():
+    """(config, measured/estimated CPU seconds of the check condition) - sorted longest first below."""
+    t = []
+    S, R_ = False, True          # no resume / resume
+    H, F = True, False           # external header / header from the files
+    # ---- no resume: VDS sizes symbolic over the widest range that confirms -----------------------------------------
+    t += [(cfg(0, 1, H, S, 40), 6), (cfg(0, 2, H, S, 40), 14)]
+    t += [(cfg(0, 3, H, S, 40, 2), 94), (cfg(0, 3, H, S, 40, 3), 21), (cfg(0, 3, H, S, 40, 4), 12)]
+    t += [(cfg(0, 4, H, S, 8, 2), 193), (cfg(0, 4, H, S, 8, 3), 21), (cfg(0, 4, H, S, 8, 4), 13)]
+    t += [(cfg(0, 5, H, S, 4, 2), 171), (cfg(0, 5, H, S, 4, 3), 30), (cfg(0, 5, H, S, 4, 4), 20)]
+    t += [(cfg(0, 6, H, S, 2, 2), 22), (cfg(0, 6, H, S, 2, 3), 12), (cfg(0, 6, H, S, 2, 4), 10)]
+    t += [(cfg(1, 1, F, S, 40), 15), (cfg(1, 1, H, S, 40), 15), (cfg(2, 1, F, S, 40), 13), (cfg(2, 1, H, S, 40), 13)]
+    t += [(cfg(1, 2, F, S, 40), 64), (cfg(1, 2, H, S, 40, 2), 30), (cfg(1, 2, H, S, 40, 3), 20), (cfg(1, 2, H, S, 40, 4), 15)]
+    t += [(cfg(1, 3, H, S, 8, 2), 150), (cfg(1, 3, H, S, 8, 3), 30), (cfg(1, 3, H, S, 8, 4), 20)]
+    t += [(cfg(2, 2, F, S, 40), 60), (cfg(2, 2, H, S, 40), 60)]
+    t += [(cfg(2, 3, F, S, 8, 2), 132), (cfg(2, 3, F, S, 8, 3), 30), (cfg(2, 3, F, S, 8, 4), 20)]
+    t += [(cfg(3, 1, H, S, 40), 13), (cfg(3, 1, F, S, 40), 13), (cfg(3, 2, H, S, 40), 93)]
+    t += [(cfg(3, 3, H, S, 4, 2), 48), (cfg(3, 3, H, S, 4, 3), 20), (cfg(3, 3, H, S, 4, 4), 15)]
+    t += [(cfg(4, 1, F, S, 40), 15), (cfg(5, 1, H, S, 40), 14), (cfg(4, 2, F, S, 40), 104)]
+    for n in range(1, 7):
+        t += [(cfg(n, 0, H, S, 0), 6), (cfg(n, 0, F, S, 0), 6)]
+    # ---- stop/resume before any step: sizes small because the saved JSON text realises every number --------------------
+    for n in range(1, 7):
+        t += [(cfg(n, 0, H, R_, 0), 6 + n), (cfg(n, 0, F, R_, 0), 6 + n)]
+    t += [(cfg(0, 1, H, R_, 8), 25), (cfg(0, 2, H, R_, 4), 40)]
+    t += [(cfg(1, 1, H, R_, 4), 21), (cfg(1, 1, F, R_, 4), 21), (cfg(2, 1, H, R_, 2), 13), (cfg(2, 1, F, R_, 3), 25)]
+    t += [(cfg(0, 3, H, R_, 2, 2), 28), (cfg(0, 3, H, R_, 3, 3), 36), (cfg(0, 3, H, R_, 3, 4), 36)]
+    t += [(cfg(1, 2, F, R_, 3), 124), (cfg(2, 2, H, R_, 2), 34), (cfg(3, 1, F, R_, 3), 33), (cfg(4, 1, F, R_, 3), 38)]
+    t += [(cfg(5, 1, H, R_, 2), 66), (cfg(3, 2, F, R_, 2), 114)]
+    t.sort(key=lambda x: -x[1])
+    return [c for c, _ in t]
+
+
+THOROUGH = _thorough()
 
 
 def _segments():
@@ -159,7 +194,7 @@ def _execute(d):
 def run(R, cfgs=None, pct=None):
     tier = R.tier
     cfgs = cfgs if cfgs is not None else configs(tier)
-    pct = pct or (100 if tier == 'quick' else 600)
+    pct = pct or (100 if tier == 'quick' else 900)
     for ref, seg in _segments():
         R.encode(ref, seg)
     R.assume(*ASSUMPTIONS)
@@ -177,6 +212,18 @@ def run(R, cfgs=None, pct=None):
     for x in ('CrossHair/z3', 'harness/C38_plan.py ghosts and oracle'):
         if x not in tb:
             tb.append(x)
+    # the floor(log(n, b)) cut against the real float expression, over the whole range the cut accepts
+    plan = importlib.import_module('harness.C38_plan')
+    import math
+    exc = plan.float_log_exceptions()
+    for b in (2, 3, 4):
+        for n in range(1, plan.NMAX + 1):
+            if plan._floor(plan._log(n, b)) != math.floor(math.log(n, b)):
+                raise HarnessError(f'integer-log cut disagrees with floor(log({n}, {b}))')
+            R.validation_points += 1
+    max_n = max(c['smax'] * c['M'] + c['N'] for c in cfgs)
+    R.bounds['C38b_log_cut'] = (f'cut == math.floor(math.log(n, b)) checked for 1 <= n <= {plan.NMAX}, b in 2..4; float/integer '
+                                f'log differ at {sorted(exc)}; largest n reachable in the shapes below: {max_n}')
     gm = chrun.gen_module('C38_plan_conditions', T.source(cfgs))
     targets = []
     for c in cfgs:
